@@ -99,11 +99,13 @@ def is_limit(cfg, ev):
     if cfg == 'OMP':
         return q == 'omp_set_num_threads' and len(args) == 1
     if cfg == 'INTERNAL':
-        return q == ENKI_INIT and len(args) == 1
+        return q == ENKI_INIT and len(args) in (0, 1)       # Initialize() == Initialize(GetNumHardwareThreads()), see R-C13-5
     return False
 
 
 def limit_value(cfg, ev):
+    if cfg == 'INTERNAL' and not ev[3]:
+        return Poly.atom(('hw', 'enki::TaskScheduler::Initialize()', ev[4]))
     return ev[3][1] if cfg == 'TBB' else ev[3][0]
 
 
@@ -157,6 +159,42 @@ def clamp_is_identity(cl, N, p):
     nlo, nhi = p.bounds(N)
     olo, ohi = other.range(p.bounds)
     return nhi <= olo if kind == 'min' else nlo >= ohi
+
+
+def owner_root(p, obj, depth=0):
+    """the global cell that (transitively) holds object `obj` when the path ends, or None: a global holds it directly, or it
+    is a member / is held by a member of an object that a global holds"""
+    if obj is None or depth > 4:
+        return None
+    if isinstance(obj, tuple) and obj and obj[0] == 'glob':
+        return obj
+    if isinstance(obj, tuple) and obj and obj[0] == 'field':
+        return owner_root(p, obj[1], depth + 1)             # a data member lives as long as its object
+    for loc, v in p.stores().items():
+        if isinstance(v, Poly) and v.as_atom() == obj:
+            if loc[0] == 'glob':
+                return loc
+            if loc[0] == 'field':
+                r = owner_root(p, loc[1], depth + 1)
+                if r is not None:
+                    return r
+    return None
+
+
+NEUTRAL_BACKEND_CALLS = ('enki::TaskScheduler::TaskScheduler', 'enki::GetNumHardwareThreads', 'omp_get_max_threads',
+                         'omp_set_max_active_levels', 'omp_set_nested', 'omp_set_dynamic', 'omp_get_num_procs')
+
+
+def unrecognised_backend_calls(p, cfg):
+    """calls into the backend on this path that are neither the limit API nor known to be irrelevant for the limit"""
+    out = []
+    for e in p.events:
+        if e[0] != 'call' or not is_api(e[1]) or is_limit(cfg, e):
+            continue
+        if e[1] in NEUTRAL_BACKEND_CALLS or RX_GC_GET.match(e[1]) or e[1].startswith('enki::Semaphore'):
+            continue
+        out.append(e)
+    return out
 
 
 def final_value(p, loc):
@@ -312,6 +350,14 @@ def check_init(ctx, cfg, tus, tag, G, GT):
     file = tu.fn_file(f)
     seen = set()
     n_inst = 0
+    limit_roots = set()
+    if cfg == 'TBB':
+        for p in paths:
+            for e in p.events:
+                if e[0] == 'call' and is_limit(cfg, e):
+                    r = owner_root(p, e[2].as_atom() if isinstance(e[2], Poly) else e[2])
+                    if r is not None:
+                        limit_roots.add(r)
     for p in paths:
         lo, hi = p.bounds(N)
         inst = 'initTaskingSystem [%s] n in %s' % (tag, rng((lo, hi)))
@@ -340,26 +386,38 @@ def check_init(ctx, cfg, tus, tag, G, GT):
                    tu.fn_loc(f), '%s|%s|initTaskingSystem|%s:does-not-return' % (R1, file, cfg))
             continue
         bad = False
-        # ---- R-C13-4: fresh handle installed
+        # ---- R-C13-4: the cell numTaskingThreads() tests (a handle pointer, an "initialised" flag, ...) is set on return,
+        #      and a path that returns early without any effect ignores the (re-)initialisation
         if G is not None:
             hv = p.mem(G)
             ha = hv.as_atom() if hv is not None else None
-            if hv is None:
+            gname = G[1].split('::')[-1]
+            effects = limits or [k for k in p.stores() if k[0] in ('glob', 'field')]
+            if hv is None and not effects:
                 bad = True
-                report(ctx, p, R4, inst, 'this path returns without installing a new handle in `%s`: a repeated '
-                       'initialisation keeps the previous setting' % G[1].split('::')[-1], tu.fn_loc(f),
+                report(ctx, p, R4, inst, 'this path returns without installing a new handle in `%s` and without any other effect: a '
+                       'repeated initialisation keeps the previous setting' % gname, tu.fn_loc(f),
+                       '%s|%s|initTaskingSystem|%s:handle-not-replaced' % (R4, file, cfg))
+            elif hv is None and p.bounds(G)[0] >= 1:
+                ctx.ok(R4, inst, '`%s` is already set on this path and stays set' % gname, tu.fn_loc(f))
+            elif hv is None:
+                bad = True
+                report(ctx, p, R4, inst, 'this path returns without setting `%s`, the state numTaskingThreads() tests: the system still '
+                       'reports 0 threads after initTaskingSystem' % gname, tu.fn_loc(f),
                        '%s|%s|initTaskingSystem|%s:handle-not-replaced' % (R4, file, cfg))
             elif hv.as_int() == 0:
                 bad = True
                 report(ctx, p, R4, inst, 'this path leaves `%s` empty (null): after initTaskingSystem the system reports 0 threads '
-                       'and the handle that carries the setting is gone' % G[1].split('::')[-1], tu.fn_loc(f),
+                       'and the handle that carries the setting is gone' % gname, tu.fn_loc(f),
                        '%s|%s|initTaskingSystem|%s:handle-not-replaced' % (R4, file, cfg))
-            elif not (isinstance(ha, tuple) and ha[0] == 'new'):
-                bad = True
-                ctx.undecided(R4, inst, '`%s` is assigned %s, not a freshly created handle' % (G[1].split('::')[-1], show_val(hv)),
-                              tu.fn_loc(f))
+            elif (isinstance(ha, tuple) and ha[0] == 'new') or (hv.as_int() is not None and hv.as_int() != 0):
+                ctx.ok(R4, inst, '%s = %s' % (gname, show_val(hv)), tu.fn_loc(f))
+            elif hv.range(p.bounds)[0] >= 1:
+                ctx.ok(R4, inst, '%s = %s (non-null)' % (gname, show_val(hv)), tu.fn_loc(f))
             else:
-                ctx.ok(R4, inst, '%s = %s' % (G[1].split('::')[-1], show_val(hv)), tu.fn_loc(f))
+                bad = True
+                ctx.undecided(R4, inst, '`%s` is assigned %s; cannot tell whether numTaskingThreads() sees the system as initialised'
+                              % (gname, show_val(hv)), tu.fn_loc(f))
         # ---- R-C13-1: the limit
         if cfg == 'DEBUG':
             ctx.ok(R1, inst, 'serial backend: no limit to apply', tu.fn_loc(f), nontrivial=False)
@@ -368,9 +426,10 @@ def check_init(ctx, cfg, tus, tag, G, GT):
             if not limits:
                 bad = True
                 takers = [e for e in p.events if e[0] == 'call' and any(isinstance(a, Poly) and N in a.atoms() for a in e[3])]
+                takers = takers or unrecognised_backend_calls(p, cfg)
                 if takers:
-                    # n goes somewhere, but not into an API this rule knows: unrecognised, not wrong
-                    ctx.undecided(R1, inst, 'n is handed to %s, which is not a recognised thread-limit API of this backend (%s)'
+                    # n goes somewhere / the backend is configured through a call this rule does not know: unrecognised, not wrong
+                    ctx.undecided(R1, inst, '%s is called, which is not a recognised thread-limit API of this backend (%s)'
                                   % (takers[0][1], limit_name(cfg)), takers[0][4])
                 else:
                     report(ctx, p, R1, inst, 'for n in %s the thread limit is never handed to the backend (%s not reached)'
@@ -416,25 +475,22 @@ def check_init(ctx, cfg, tus, tag, G, GT):
                                   % (limit_name(cfg), show_val(v)), e[4])
             if cfg == 'INTERNAL' and not limits and hi < 1:
                 bad = True
-                report(ctx, p, R1, inst, 'for n <= 0 the scheduler is never initialised (Initialize not reached)', tu.fn_loc(f),
-                       '%s|%s|initTaskingSystem|%s:limit-not-applied' % (R1, file, cfg))
+                other = unrecognised_backend_calls(p, cfg)
+                if other:
+                    ctx.undecided(R1, inst, 'for n <= 0 the scheduler is set up through %s, which is not a recognised API (%s)'
+                                  % (other[0][1], limit_name(cfg)), other[0][4])
+                else:
+                    report(ctx, p, R1, inst, 'for n <= 0 the scheduler is never initialised (Initialize not reached)', tu.fn_loc(f),
+                           '%s|%s|initTaskingSystem|%s:limit-not-applied' % (R1, file, cfg))
         # ---- ownership / pairing of the object that carries the limit
         for e in limits:
             obj = e[2].as_atom() if isinstance(e[2], Poly) else e[2]
             if cfg == 'TBB':
-                hv = p.mem(G) if G is not None else None
-                ha = hv.as_atom() if hv is not None else None
-                owned = False
-                if ha is not None:
-                    for loc, v in p.stores().items():
-                        if loc[0] == 'field' and loc[1] == ha and v.as_atom() == obj:
-                            owned = True
-                    if isinstance(obj, tuple) and obj[0] == 'field' and obj[1] == ha:
-                        owned = True
-                if not owned:
+                if owner_root(p, obj) is None:
                     bad = True
-                    report(ctx, p, R1, inst, 'the tbb::global_control created at %s (%s) is not owned by the handle installed '
-                           'in the global: the limit ends when that object dies, or can never be replaced' % (e[4], show_val(e[2])),
+                    report(ctx, p, R1, inst, 'the tbb::global_control created at %s (%s) is not held, directly or through the object it '
+                           'belongs to, by any global when initTaskingSystem returns: the limit ends when that object dies, or can '
+                           'never be replaced' % (e[4], show_val(e[2])),
                            e[4], '%s|%s|initTaskingSystem|%s:limit-object-not-owned' % (R1, file, cfg))
             if cfg == 'INTERNAL' and GT is not None:
                 cur = final_value(p, GT)
@@ -466,12 +522,21 @@ def check_init(ctx, cfg, tus, tag, G, GT):
                 ctx.ok(R10, inst, 'the last limit write carries n', last[4])
         elif cfg != 'DEBUG' and hi >= 1 and limits:
             ctx.ok(R10, inst, 'no destructor writes the limit after n was applied', tu.fn_loc(f), nontrivial=False)
-        # ---- R-C13-8: the previous handle must be gone when the call returns (TBB: the minimum over all live
-        #      global_control objects is what counts, so a parked old handle keeps capping the new setting)
-        if G is not None and p.bounds(G)[1] >= 1:
-            old = Poly.atom(G)
-            parked = [loc for loc, v in p.stores().items() if loc != G and loc[0] in ('glob', 'field') and v == old]
+        # ---- R-C13-8: whatever owned the previous setting must be gone when the call returns (TBB: the minimum over all
+        #      live global_control objects is what counts, so a parked old owner keeps capping the new setting).
+        #      Owners = the global cell numTaskingThreads() tests (if it is a pointer) and the global cells that hold the
+        #      limit object on some path.
+        roots = set(limit_roots)
+        if G is not None and fl.defbounds.get(G, (0, 2))[1] > 1:
+            roots.add(G)
+        any_parked = False
+        for Rr in sorted(roots):
+            if p.bounds(Rr)[1] < 1:
+                continue
+            old = Poly.atom(Rr)
+            parked = [loc for loc, v in p.stores().items() if loc != Rr and loc[0] in ('glob', 'field') and v == old]
             if parked and cfg == 'TBB':
+                any_parked = True
                 where = parked[0][1].split('::')[-1] if parked[0][0] == 'glob' else '%s of %s' % (parked[0][2], show_val(parked[0][1]))
                 report(ctx, p, R8, inst, 'the previously installed handle is moved into `%s` and is still alive when initTaskingSystem '
                        'returns: its tbb::global_control keeps limiting the process (TBB uses the minimum over all live controls), so '
@@ -481,7 +546,20 @@ def check_init(ctx, cfg, tus, tag, G, GT):
                 ctx.ok(R8, inst, 'previous handle parked in %s; harmless: under this backend the handle owns no process-wide limit '
                        'object' % show_val(Poly.atom(parked[0])), tu.fn_loc(f), nontrivial=False)
             else:
-                ctx.ok(R8, inst, 'no persistent cell holds the previous handle on return', tu.fn_loc(f))
+                ctx.ok(R8, inst, 'no persistent cell holds the previous content of `%s` on return' % Rr[1].split('::')[-1], tu.fn_loc(f))
+        # ---- R-C13-7 (effects form): under TBB the cell that owns the limit object is not emptied before the new
+        #      global_control exists (between the two the process runs without the configured limit)
+        if cfg == 'TBB' and limits and not any_parked:
+            first_new = min(p.events.index(e) for e in limits)
+            for i, e in enumerate(p.events[:first_new]):
+                if e[0] == 'store' and e[1] in roots and isinstance(e[2], Poly) and e[2].as_int() == 0 and p.bounds(e[1])[1] >= 1:
+                    bad = True
+                    report(ctx, p, 'R-C13-7', 'initTaskingSystem [%s]' % tag, '`%s` - the cell that owns the previous tbb::global_control - is '
+                           'emptied at %s before the new global_control is constructed at %s: between the two the backend runs without '
+                           'the configured limit, so a parallel_for in flight on another thread is joined by all hardware threads'
+                           % (e[1][1].split('::')[-1], e[3], limits[0][4]), e[3],
+                           'R-C13-7|%s|initTaskingSystem|handle-gap' % INIT_FILE)
+                    break
         # ---- R-C13-9: OpenMP nesting stays off on the init path (with nesting every outer thread forks its own team of n)
         if cfg == 'OMP':
             nest = [e for e in p.events if e[0] == 'call' and e[1] in ('omp_set_max_active_levels', 'omp_set_nested')]
@@ -532,6 +610,35 @@ def check_enki(ctx, tu, tag):
         ctx.undecided(R5, inst, 'value-flow analysis did not converge: %s' % e, tu.fn_loc(f))
         paths = []
     K = Poly.atom(('param', f['params'][0]['name'] or 'arg0'))
+    # the argument-less overload is the "hardware default": it must be Initialize(<hardware-derived count>)
+    for f0 in [x for x in tu.fns(q=ENKI_INIT, dep=False) if tu.cfg(x) is not None and not x['params']]:
+        n += 1
+        inst0 = 'enki::TaskScheduler::Initialize() [%s]' % tag
+        try:
+            ps = Flow([tu], api=lambda q: q == ENKI_INIT, hw=is_hw).analyse(0, f0, this=this)
+        except RuntimeError as e:
+            ctx.undecided(R5, inst0, 'value-flow analysis did not converge: %s' % e, tu.fn_loc(f0))
+            continue
+        okd = True
+        for p in ps:
+            calls = [e for e in p.events if e[0] == 'call' and e[1] == ENKI_INIT and len(e[3]) == 1]
+            if p.kind != 'return' or len(calls) != 1 or strip_site(calls[0][2]) != ('this',):
+                okd = False
+                ctx.undecided(R5, inst0, 'does not simply forward to Initialize(count) on this scheduler', tu.fn_loc(f0))
+                break
+            sv = strip_site(calls[0][3][0])
+            if isinstance(sv, tuple) and sv and sv[0] == 'hw':
+                continue
+            okd = False
+            if isinstance(calls[0][3][0], Poly) and calls[0][3][0].is_const():
+                ctx.violation(R5, inst0, 'the argument-less Initialize() starts %s threads, required: the hardware thread count (it is the '
+                              'default selected for n <= 0)' % show_val(calls[0][3][0]), calls[0][4],
+                              key='%s|%s|TaskScheduler::Initialize()|default-not-hardware-derived' % (R5, file))
+            else:
+                ctx.undecided(R5, inst0, 'forwards `%s`; cannot tell whether it is hardware derived' % show_val(calls[0][3][0]), calls[0][4])
+            break
+        if okd:
+            ctx.ok(R5, inst0, 'forwards to Initialize(GetNumHardwareThreads())', tu.fn_loc(f0))
     # which member does GetNumTaskThreads return?
     gs = [g for g in tu.fns(q=ENKI_GET, dep=False) if tu.cfg(g) is not None]
     if len(gs) != 1:
